@@ -25,7 +25,7 @@ fn plain(s: &str) -> ST { lit_dt(s, &format!("{XSD}string")) }
 
 // ------------------------------------------------------------------ options
 #[derive(Clone, Copy, Debug, PartialEq, Eq)]
-struct Opts { mode10: bool, use_rdf_type: bool, dir: u8, spaces: u16, native: bool }
+struct Opts { mode10: bool, use_rdf_type: bool, dir: u8, spaces: u16, native: bool, base: Option<&'static str>, ctr: bool }
 impl Opts {
     /// the canonical way of building the options (fixed order of the setters); the recipes below build the same
     /// settings through every builder method in random orders
@@ -36,10 +36,13 @@ impl Opts {
             .with_use_native_types(self.native)
             .with_spaces(self.spaces);
         o = match self.dir { 1 => o.with_rdf_direction(RdfDirection::I18nDatatype), 2 => o.with_rdf_direction(RdfDirection::CompoundLiteral), _ => o };
+        // the options that say how IRIs may be written: the same on the serializer and on the parser of the round trip
+        if let Some(b) = self.base { o = o.with_base(arc_iri(b)); }
+        if !self.ctr { o = o.with_compact_to_relative(false); }
         o
     }
     fn show(&self) -> String {
-        format!("mode={} use_rdf_type={} rdf_direction={} spaces={}{}", if self.mode10 { "1.0" } else { "1.1" }, self.use_rdf_type, ["none", "i18n-datatype", "compound-literal"][self.dir as usize], self.spaces, if self.native { " use_native_types=true" } else { "" })
+        format!("mode={} use_rdf_type={} rdf_direction={} spaces={}{}", if self.mode10 { "1.0" } else { "1.1" }, self.use_rdf_type, ["none", "i18n-datatype", "compound-literal"][self.dir as usize], self.spaces, if self.native { " use_native_types=true" } else { "" }) + &self.base.map(|b| format!(" base=<{b}>")).unwrap_or_default() + if self.ctr { "" } else { " compact_to_relative=false" }
     }
 }
 
@@ -95,20 +98,113 @@ fn push_quad<T: sophia_api::quad::Quad>(q: T, out: &mut Vec<Q>, bad: &mut Vec<St
     term_contract(q.s(), bad); term_contract(q.p(), bad); term_contract(q.o(), bad); if let Some(g) = q.g() { term_contract(g, bad); }
     out.push(([to_st(q.s()), to_st(q.p()), to_st(q.o())], q.g().map(to_st)));
 }
+// ---- the entry points of the parser: `parse_str`, and `parse` on every kind of BufRead (the bytes are the same: so must the quads be)
+/// a BufRead (not a BufReader) that hands out at most `k` bytes per `fill_buf`
+struct Dribble<'a> { data: &'a [u8], pos: usize, k: usize }
+impl<'a> std::io::Read for Dribble<'a> {
+    fn read(&mut self, buf: &mut [u8]) -> std::io::Result<usize> { let n = self.k.min(buf.len()).min(self.data.len() - self.pos); buf[..n].copy_from_slice(&self.data[self.pos..self.pos + n]); self.pos += n; Ok(n) }
+}
+impl<'a> std::io::BufRead for Dribble<'a> {
+    fn fill_buf(&mut self) -> std::io::Result<&[u8]> { let n = self.k.min(self.data.len() - self.pos); Ok(&self.data[self.pos..self.pos + n]) }
+    fn consume(&mut self, amt: usize) { self.pos = (self.pos + amt).min(self.data.len()); }
+}
+/// a Read that gives at most `k` bytes per call and is interrupted now and then (ErrorKind::Interrupted: the caller must retry)
+struct Trickle<'a> { data: &'a [u8], pos: usize, k: usize, calls: usize, interrupts: bool }
+impl<'a> std::io::Read for Trickle<'a> {
+    fn read(&mut self, buf: &mut [u8]) -> std::io::Result<usize> {
+        self.calls += 1;
+        if self.interrupts && self.calls % 3 == 2 { return Err(std::io::Error::new(std::io::ErrorKind::Interrupted, "interrupted (verif)")); }
+        let n = self.k.min(buf.len()).min(self.data.len() - self.pos); buf[..n].copy_from_slice(&self.data[self.pos..self.pos + n]); self.pos += n; Ok(n)
+    }
+}
+#[derive(Clone, Debug, PartialEq)]
+enum Entry {
+    /// parse_str
+    Str,
+    /// parse(&[u8]) / parse(Cursor<Vec<u8>>): the whole document in one buffer
+    Slice, Cursor,
+    /// parse(BufReader::new(..)) (8 KiB buffer, as when reading a file) / BufReader::with_capacity(k, ..)
+    BufDefault, BufCap(usize),
+    /// parse(custom BufRead handing out k bytes per fill_buf)
+    Dribble(usize),
+    /// parse(BufReader::with_capacity(cap, Read giving `read` bytes per call, possibly interrupted))
+    Trickle { read: usize, cap: usize, interrupts: bool },
+    /// parse(first.chain(second)): two buffers, cut at a byte offset (possibly inside a multi-byte character)
+    Chain(usize),
+    /// parse(VecDeque<u8>) whose ring buffer wraps after that many bytes
+    Deque(usize),
+}
+impl Entry {
+    fn show(&self) -> String {
+        match self {
+            Entry::Str => "parse_str(&str)".into(), Entry::Slice => "parse(&[u8])".into(), Entry::Cursor => "parse(Cursor<Vec<u8>>)".into(),
+            Entry::BufDefault => "parse(BufReader::new(&[u8])) [8 KiB buffer]".into(), Entry::BufCap(k) => format!("parse(BufReader::with_capacity({k}, &[u8]))"),
+            Entry::Dribble(k) => format!("parse(BufRead handing out {k} byte(s) per fill_buf)"),
+            Entry::Trickle { read, cap, interrupts } => format!("parse(BufReader::with_capacity({cap}, Read giving {read} byte(s) per call{}))", if *interrupts { ", interrupted every third call" } else { "" }),
+            Entry::Chain(at) => format!("parse(bytes[..{at}].chain(bytes[{at}..]))"), Entry::Deque(at) => format!("parse(VecDeque<u8> wrapping after {at} bytes)"),
+        }
+    }
+    fn kind(&self) -> &'static str {
+        match self { Entry::Str => "parse_str", Entry::Slice => "parse(&[u8])", Entry::Cursor => "parse(Cursor)", Entry::BufDefault => "parse(BufReader, 8 KiB)", Entry::BufCap(_) => "parse(BufReader, small capacity)",
+            Entry::Dribble(_) => "parse(BufRead, k bytes per fill_buf)", Entry::Trickle { .. } => "parse(BufReader over a slow Read)", Entry::Chain(_) => "parse(Chain of two slices)", Entry::Deque(_) => "parse(VecDeque)" }
+    }
+    /// the sizes of the pieces in which the reader hands the bytes over, for the model (Wide.v: policy)
+    fn policy(&self, len: usize) -> Option<String> {
+        match self {
+            Entry::Str => None, Entry::Slice | Entry::Cursor => Some(format!("At []")), Entry::BufDefault => Some("Every 8192".into()), Entry::BufCap(k) | Entry::Dribble(k) => Some(format!("Every {k}")),
+            Entry::Trickle { read, cap, .. } => Some(format!("Every {}", (*read).min(*cap).max(1))), Entry::Chain(at) | Entry::Deque(at) => Some(format!("At [{}]", (*at).min(len))),
+        }
+    }
+}
+/// a VecDeque holding `bytes` whose two slices are cut after `at` bytes (when the allocation allows it)
+fn wrapped_deque(bytes: &[u8], at: usize) -> std::collections::VecDeque<u8> {
+    let mut d: std::collections::VecDeque<u8> = std::collections::VecDeque::with_capacity(bytes.len());
+    let cap = d.capacity(); let at = at.min(bytes.len());
+    // the head is moved so that `at` bytes fit before the end of the allocation
+    if at > 0 && at < bytes.len() && cap >= bytes.len() { let shift = cap - at; for _ in 0..shift { d.push_back(0); } for _ in 0..shift { d.pop_front(); } }
+    d.extend(bytes.iter().copied());
+    d
+}
+/// runs one entry point of `p` on the document
+fn run_entry<LF: LoaderFactory>(p: &JsonLdParser<LF>, txt: &[u8], entry: &Entry) -> sophia_jsonld::parser::JsonLdQuadSource {
+    use std::io::{BufReader, Read as _};
+    match entry {
+        Entry::Str => match std::str::from_utf8(txt) { Ok(t) => p.parse_str(t), Err(_) => p.parse(txt) },
+        Entry::Slice => p.parse(txt),
+        Entry::Cursor => p.parse(std::io::Cursor::new(txt.to_vec())),
+        Entry::BufDefault => p.parse(BufReader::new(txt)),
+        Entry::BufCap(k) => p.parse(BufReader::with_capacity((*k).max(1), txt)),
+        Entry::Dribble(k) => p.parse(Dribble { data: txt, pos: 0, k: (*k).max(1) }),
+        Entry::Trickle { read, cap, interrupts } => p.parse(BufReader::with_capacity((*cap).max(1), Trickle { data: txt, pos: 0, k: (*read).max(1), calls: 0, interrupts: *interrupts })),
+        Entry::Chain(at) => { let at = (*at).min(txt.len()); p.parse(txt[..at].chain(&txt[at..])) }
+        Entry::Deque(at) => p.parse(wrapped_deque(txt, *at)),
+    }
+}
+/// a random entry point for a document (cuts prefer the inside of a multi-byte character when there is one)
+fn gen_entry(r: &mut Rng, txt: &[u8]) -> Entry {
+    let inner: Vec<usize> = txt.iter().enumerate().filter(|(_, b)| **b & 0xC0 == 0x80).map(|(i, _)| i).collect();
+    let cut = |r: &mut Rng| if !inner.is_empty() && r.chance(2, 3) { *r.pick(&inner) } else { r.below(txt.len() + 1) };
+    match r.below(20) {
+        0..=5 => Entry::Str, 6 | 7 => Entry::Slice, 8 => Entry::Cursor, 9 | 10 => Entry::BufDefault, 11 | 12 => Entry::BufCap(*r.pick(&[1, 2, 3, 5, 7, 16, 64, 4096])),
+        13..=15 => Entry::Dribble(r.range(1, 7)), 16 => Entry::Trickle { read: r.range(1, 9), cap: *r.pick(&[1, 3, 8, 8192]), interrupts: r.chance(1, 2) }, 17 | 18 => Entry::Chain(cut(r)), _ => Entry::Deque(cut(r)),
+    }
+}
+
 /// how the parser of the round trip is built: None = from the canonical options; Some = through the recipe
 #[derive(Clone)]
 struct ParseHow { recipe: Vec<Op>, via_default: bool, as_bytes: bool }
-fn parse_back(txt: &str, o: &Opts, how: Option<&ParseHow>, problems: &mut Vec<String>) -> Result<Vec<Q>, String> {
+fn parse_back(txt: &str, o: &Opts, how: Option<&ParseHow>, entry: &Entry, problems: &mut Vec<String>) -> Result<Vec<Q>, String> {
     let txt = txt.to_string();
     let o = *o;
     let how = how.cloned();
+    let entry = entry.clone();
     quiet(true);
     let res = std::panic::catch_unwind(move || {
         match how {
             None => {
                 let p = JsonLdParser::new_with_options(o.build());
                 let mut out: Vec<Q> = vec![]; let mut bad: Vec<String> = vec![];
-                let mut src = p.parse_str(&txt);
+                let mut src = run_entry(&p, txt.as_bytes(), &entry);
                 match src.for_each_quad(|q| push_quad(q, &mut out, &mut bad)) {
                     Ok(()) => (bad, Ok(out)),
                     Err(e) => (bad, Err(format!("parse error: {e}"))),
@@ -124,11 +220,11 @@ fn parse_back(txt: &str, o: &Opts, how: Option<&ParseHow>, problems: &mut Vec<St
                     let mut bad: Vec<String> = check_getters(p.options(), &e).into_iter().map(|p| format!("OPTIONS (JsonLdParser::new): {p}")).collect();
                     let mut out: Vec<Q> = vec![];
                     // the module-level functions (default parser) and the parser's own methods, by turns
-                    let mut src = if h.via_default { if txt.len() % 2 == 0 { sophia_jsonld::parser::parse_str(&txt) } else { sophia_jsonld::parser::parse_bufread(txt.as_bytes()) } } else { p.parse_str(&txt) };
+                    let mut src = if h.via_default { if txt.len() % 2 == 0 { sophia_jsonld::parser::parse_str(&txt) } else { sophia_jsonld::parser::parse_bufread(txt.as_bytes()) } } else { run_entry(&p, txt.as_bytes(), &entry) };
                     let r = match src.for_each_quad(|q| push_quad(q, &mut out, &mut bad)) { Ok(()) => Ok(out), Err(e) => Err(format!("parse error: {e}")) };
                     (bad, r)
                 } else {
-                    run_recipe(&ops, h.via_default, ParseRun { txt: &txt, expect: &e, as_bytes: h.as_bytes })
+                    run_recipe(&ops, h.via_default, ParseRun { txt: &txt, expect: &e, as_bytes: h.as_bytes, entry: &entry })
                 }
             }
         }
@@ -172,14 +268,14 @@ fn show_recipe(ops: &[Op]) -> String { if ops.is_empty() { "JsonLdOptions::new()
 /// what the options must answer after a recipe: the specification of the setters (each one changes its own
 /// setting and nothing else), starting from the defaults of the JSON-LD API (section 9.3 JsonLdOptions)
 #[derive(Clone, Debug, PartialEq)]
-struct Expect { base: Option<String>, compact_arrays: bool, compact_to_relative: bool, expand: u8, ordered: bool, mode10: bool, gen_rdf: bool, dir: u8, native: bool, rdf_type: bool, policy: u8, spaces: u16, compact: u8 }
+struct Expect { base: Option<&'static str>, compact_arrays: bool, compact_to_relative: bool, expand: u8, ordered: bool, mode10: bool, gen_rdf: bool, dir: u8, native: bool, rdf_type: bool, policy: u8, spaces: u16, compact: u8 }
 impl Default for Expect {
     fn default() -> Self { Expect { base: None, compact_arrays: true, compact_to_relative: true, expand: 0, ordered: false, mode10: false, gen_rdf: false, dir: 0, native: false, rdf_type: false, policy: 0, spaces: 0, compact: 0 } }
 }
 impl Expect {
     fn step(&mut self, op: &Op) {
         match op {
-            Op::Base(b) => self.base = b.map(|x| x.to_string()), Op::CompactArrays(b) => self.compact_arrays = *b, Op::CompactToRelative(b) => self.compact_to_relative = *b,
+            Op::Base(b) => self.base = *b, Op::CompactArrays(b) => self.compact_arrays = *b, Op::CompactToRelative(b) => self.compact_to_relative = *b,
             Op::LoaderFactoryD | Op::LoaderFactoryF | Op::LoaderClosure | Op::LoaderDefault | Op::LoaderStatic => {}
             Op::ExpandIri => self.expand = 1, Op::ExpandLoaded | Op::ExpandTry => self.expand = 2, Op::NoExpand => self.expand = 0,
             Op::Ordered(b) => self.ordered = *b, Op::Mode(m) => self.mode10 = *m, Op::GenRdf(b) => self.gen_rdf = *b, Op::Dir(d) => self.dir = *d, Op::Native(b) => self.native = *b, Op::RdfType(b) => self.rdf_type = *b,
@@ -188,7 +284,7 @@ impl Expect {
         }
     }
     fn of(ops: &[Op]) -> Expect { let mut e = Expect::default(); for op in ops { e.step(op); } e }
-    fn opts(&self) -> Opts { Opts { mode10: self.mode10, use_rdf_type: self.rdf_type, dir: self.dir, spaces: self.spaces, native: self.native } }
+    fn opts(&self) -> Opts { Opts { mode10: self.mode10, use_rdf_type: self.rdf_type, dir: self.dir, spaces: self.spaces, native: self.native, base: self.base, ctr: self.compact_to_relative } }
 }
 fn arc_iri(s: &str) -> sophia_jsonld::vocabulary::ArcIri { sophia_iri::Iri::new_unchecked(std::sync::Arc::from(s)) }
 fn loaded_ctx() -> ContextRef { use sophia_jsonld::context::TryIntoContextRef; CTX_TXT.try_into_context_ref().expect("valid context") }
@@ -242,7 +338,7 @@ fn check_getters<LF>(o: &JsonLdOptions<LF>, e: &Expect) -> Vec<String> {
     macro_rules! ck { ($name:expr, $got:expr, $want:expr) => { let (g, w) = ($got, $want); if g != w { bad.push(format!("{} is {:?}, expected {:?}", $name, g, w)); } } }
     let ctx = |c: Option<&ContextRef>, iri: &str| -> u8 { match c { None => 0, Some(ContextRef::Iri(i)) => if i.as_str() == iri { 1 } else { 9 }, Some(ContextRef::Loaded(_)) => 2 } };
     let dir = |d: Option<RdfDirection>| -> u8 { match d { None => 0, Some(RdfDirection::I18nDatatype) => 1, Some(RdfDirection::CompoundLiteral) => 2 } };
-    ck!("base()", o.base().map(|i| i.as_str().to_string()), e.base.clone());
+    ck!("base()", o.base().map(|i| i.as_str().to_string()), e.base.map(|b| b.to_string()));
     ck!("compact_arrays()", o.compact_arrays(), e.compact_arrays);
     ck!("compact_to_relative()", o.compact_to_relative(), e.compact_to_relative);
     ck!("expand_context()", ctx(o.expand_context(), CTX_IRI), e.expand);
@@ -256,7 +352,7 @@ fn check_getters<LF>(o: &JsonLdOptions<LF>, e: &Expect) -> Vec<String> {
     ck!("spaces()", o.spaces(), e.spaces);
     ck!("compact_context()", ctx(o.compact_context(), CCTX_IRI), e.compact);
     // through Deref<Target = json_ld::Options>
-    ck!("deref().base", o.base.as_ref().map(|i| i.as_str().to_string()), e.base.clone());
+    ck!("deref().base", o.base.as_ref().map(|i| i.as_str().to_string()), e.base.map(|b| b.to_string()));
     ck!("deref().compact_arrays", o.compact_arrays, e.compact_arrays);
     ck!("deref().compact_to_relative", o.compact_to_relative, e.compact_to_relative);
     ck!("deref().expand_context", ctx(o.expand_context.as_ref(), CTX_IRI), e.expand);
@@ -370,7 +466,7 @@ fn run_default_ctor(docs: &[Vec<Q>], sink: Sink, seed: u64) -> SerOut {
     }
     out
 }
-struct ParseRun<'a> { txt: &'a str, expect: &'a Expect, as_bytes: bool }
+struct ParseRun<'a> { txt: &'a str, expect: &'a Expect, as_bytes: bool, entry: &'a Entry }
 impl<'a> Use for ParseRun<'a> {
     type Out = (Vec<String>, Result<Vec<Q>, String>);
     fn run<LF: LoaderFactory>(self, o: JsonLdOptions<LF>) -> Self::Out {
@@ -378,7 +474,8 @@ impl<'a> Use for ParseRun<'a> {
         let mut bad: Vec<String> = check_getters(p.options(), self.expect).into_iter().map(|p| format!("OPTIONS (JsonLdParser::options): {p}")).collect();
         check_loader(p.options());
         let mut out: Vec<Q> = vec![];
-        let mut src = if self.as_bytes { p.parse(self.txt.as_bytes()) } else { p.parse_str(self.txt) };
+        // (as_bytes without a particular entry point: the byte slice, as before)
+        let mut src = if *self.entry != Entry::Str { run_entry(&p, self.txt.as_bytes(), self.entry) } else if self.as_bytes { p.parse(self.txt.as_bytes()) } else { p.parse_str(self.txt) };
         let r = match src.for_each_quad(|q| push_quad(q, &mut out, &mut bad)) { Ok(()) => Ok(out), Err(e) => Err(format!("parse error: {e}")) };
         (bad, r)
     }
@@ -460,17 +557,82 @@ impl J {
 
 // ------------------------------------------------------------------ reference reader: JSON-LD 1.1 API, "Deserialize JSON-LD to RDF",
 // restricted to the expanded/flattened shape the serializer emits (no context, no nested node objects); written from the specification
-struct RefRdf { out: Vec<Q>, fresh: usize, dir: u8, quirks: bool, native: bool }
+// ---- RFC 3986 (appendix B: components; 5.2: reference resolution), written from the RFC text: used by the reference reader to
+// resolve the '@id' / '@type' values of a document against the base IRI, and by the generator to name the IRIs "under" a base
+struct Ref3986<'a> { scheme: Option<&'a str>, auth: Option<&'a str>, path: &'a str, query: Option<&'a str>, frag: Option<&'a str> }
+/// scheme = ALPHA *( ALPHA / DIGIT / "+" / "-" / "." ) followed by ':'
+fn has_scheme(s: &str) -> bool {
+    match s.find(':') { Some(i) if i > 0 => s.as_bytes()[0].is_ascii_alphabetic() && s[..i].bytes().all(|b| b.is_ascii_alphanumeric() || matches!(b, b'+' | b'-' | b'.')), _ => false }
+}
+/// JSON-LD 1.1 (IRI expansion, step 2): "the form of a keyword": '@' followed by one or more ALPHA
+fn keyword_form(s: &str) -> bool { s.len() > 1 && s.starts_with('@') && s[1..].bytes().all(|b| b.is_ascii_alphabetic()) }
+fn split3986(r: &str) -> Ref3986<'_> {
+    let (r, frag) = match r.find('#') { Some(i) => (&r[..i], Some(&r[i + 1..])), None => (r, None) };
+    let (r, query) = match r.find('?') { Some(i) => (&r[..i], Some(&r[i + 1..])), None => (r, None) };
+    let (scheme, r) = if has_scheme(r) { let i = r.find(':').unwrap(); (Some(&r[..i]), &r[i + 1..]) } else { (None, r) };
+    let (auth, path) = match r.strip_prefix("//") { Some(rest) => match rest.find('/') { Some(i) => (Some(&rest[..i]), &rest[i..]), None => (Some(rest), "") }, None => (None, r) };
+    Ref3986 { scheme, auth, path, query, frag }
+}
+/// 5.2.4 remove_dot_segments
+fn remove_dots(path: &str) -> String {
+    fn pop(out: &mut String) { match out.rfind('/') { Some(i) => out.truncate(i), None => out.clear() } }
+    let mut input: String = path.to_string(); let mut out = String::new();
+    while !input.is_empty() {
+        if input.starts_with("../") { input.drain(..3); } else if input.starts_with("./") { input.drain(..2); }
+        else if input.starts_with("/./") { input.drain(..2); } else if input == "/." { input = "/".into(); }
+        else if input.starts_with("/../") { input.drain(..3); pop(&mut out); } else if input == "/.." { input = "/".into(); pop(&mut out); }
+        else if input == "." || input == ".." { input.clear(); }
+        else { let start = usize::from(input.starts_with('/')); let end = input[start..].find('/').map(|i| i + start).unwrap_or(input.len()); out.push_str(&input[..end]); input.drain(..end); }
+    }
+    out
+}
+/// 5.2.2 (strict) + 5.2.3 merge + 5.3 recomposition
+fn resolve3986(base: &str, reference: &str) -> String {
+    let (b, r) = (split3986(base), split3986(reference));
+    let (scheme, auth, path, query);
+    if r.scheme.is_some() { scheme = r.scheme; auth = r.auth; path = remove_dots(r.path); query = r.query; }
+    else {
+        scheme = b.scheme;
+        if r.auth.is_some() { auth = r.auth; path = remove_dots(r.path); query = r.query; }
+        else {
+            auth = b.auth;
+            if r.path.is_empty() { path = b.path.to_string(); query = r.query.or(b.query); }
+            else if r.path.starts_with('/') { path = remove_dots(r.path); query = r.query; }
+            else {
+                let merged = if b.auth.is_some() && b.path.is_empty() { format!("/{}", r.path) } else { match b.path.rfind('/') { Some(i) => format!("{}{}", &b.path[..=i], r.path), None => r.path.to_string() } };
+                path = remove_dots(&merged); query = r.query;
+            }
+        }
+    }
+    let mut out = String::new();
+    if let Some(s) = scheme { out.push_str(s); out.push(':'); }
+    if let Some(a) = auth { out.push_str("//"); out.push_str(a); }
+    out.push_str(&path);
+    if let Some(q) = query { out.push('?'); out.push_str(q); }
+    if let Some(f) = r.frag { out.push('#'); out.push_str(f); }
+    out
+}
+
+struct RefRdf { out: Vec<Q>, fresh: usize, dir: u8, quirks: bool, native: bool, base: Option<String> }
 impl RefRdf {
     fn id_term(s: &str) -> ST { if let Some(l) = s.strip_prefix("_:") { bnode(l) } else { iri(s) } }
     fn fresh(&mut self) -> ST { self.fresh += 1; bnode(&format!("L{}", self.fresh)) }
+    /// JSON-LD 1.1 API 5.2.2 (IRI expansion with documentRelative, no term definitions: the serializer emits no context): what an
+    /// '@id' (or '@type') string denotes.  A value that has the form of a keyword is ignored by expansion (the node would
+    /// silently lose its identity); a value with a scheme is an IRI as it stands; anything else is resolved against the base IRI
+    fn node_id(&self, s: &str) -> Result<ST, String> {
+        if let Some(l) = s.strip_prefix("_:") { return Ok(bnode(l)); }
+        if keyword_form(s) { return Err(format!("the identifier {s:?} has the form of a keyword: JSON-LD expansion ignores it instead of reading an IRI")); }
+        if has_scheme(s) { return Ok(iri(s)); }
+        match &self.base { Some(b) => Ok(iri(&resolve3986(b, s))), None => Err(format!("the identifier {s:?} is a relative IRI reference and the options have no base IRI")) }
+    }
     fn node(&mut self, n: &J, g: &Option<ST>, top: bool) -> Result<(), String> {
         let J::Obj(entries) = n else { return Err(format!("node object expected, found {n:?}")) };
-        let id = Self::id_term(n.get("@id").ok_or("node object without @id")?.str()?);
+        let id = self.node_id(n.get("@id").ok_or("node object without @id")?.str()?)?;
         for (k, v) in entries {
             match k.as_str() {
                 "@id" => {}
-                "@type" => for t in v.arr()? { self.out.push(([id.clone(), rdf("type"), Self::id_term(t.str()?)], g.clone())); },
+                "@type" => for t in v.arr()? { let ty = self.node_id(t.str()?)?; self.out.push(([id.clone(), rdf("type"), ty], g.clone())); },
                 "@graph" => { if !top { return Err("@graph below the top level".into()); } for m in v.arr()? { self.node(m, &Some(id.clone()), false)?; } }
                 k if k.starts_with('@') => return Err(format!("unexpected keyword {k}")),
                 // JSON-LD 1.1 "Deserialize JSON-LD to RDF" 8.1.2: a property that is a blank node identifier is
@@ -478,6 +640,8 @@ impl RefRdf {
                 // would emit their cells -- but nothing reaches the subject
                 k if k.starts_with("_:") => { for item in v.arr()? { let before = self.out.len(); let _ = self.object(item, g)?; self.out.truncate(before); } }
                 k if sophia_iri::IriRef::new(k).is_err() => return Err(format!("property key {k:?} is not an IRI")),
+                // (property keys are expanded relative to the vocabulary mapping, never to the base: without '@vocab' a key that is not an absolute IRI is dropped)
+                k if !has_scheme(k) => return Err(format!("property key {k:?} is not an absolute IRI: JSON-LD expansion drops it")),
                 k => for item in v.arr()? { let o = self.object(item, g)?; self.out.push(([id.clone(), iri(k), o], g.clone())); },
             }
         }
@@ -524,7 +688,7 @@ impl RefRdf {
                 _ => match (lang, ty) { (Some(l), _) => lit_lang(lex, l), (None, Some(t)) => lit_dt(lex, t), (None, None) => plain(lex) },
             });
         }
-        if let Some(i) = item.get("@id") { if entries.len() != 1 { return Err("node reference with other entries".into()); } return Ok(Self::id_term(i.str()?)); }
+        if let Some(i) = item.get("@id") { if entries.len() != 1 { return Err("node reference with other entries".into()); } return self.node_id(i.str()?); }
         Err(format!("unrecognised object {item:?}"))
     }
 }
@@ -551,8 +715,8 @@ fn native_q(q: &Q) -> Q { ([q.0[0].clone(), q.0[1].clone(), native_image(&q.0[2]
 /// `quirks`: do what json-ld-core 0.15.1 is known to do differently from the specification when
 /// rdfDirection is set (third-party code, outside /repo): no rdf:value/rdf:language/rdf:direction
 /// triples for compound literals, and no '_' in the i18n datatype when there is no language.
-fn reference_to_rdf(doc: &J, dir: u8, quirks: bool, native: bool) -> Result<Vec<Q>, String> {
-    let mut r = RefRdf { out: vec![], fresh: 0, dir, quirks, native };
+fn reference_to_rdf(doc: &J, dir: u8, quirks: bool, native: bool, base: Option<&str>) -> Result<Vec<Q>, String> {
+    let mut r = RefRdf { out: vec![], fresh: 0, dir, quirks, native, base: base.map(|b| b.to_string()) };
     for n in doc.arr()? { r.node(n, &None, true)?; }
     Ok(r.out)
 }
@@ -758,7 +922,7 @@ fn shuffle<T>(v: &mut Vec<T>, r: &mut Rng) { for i in (1..v.len()).rev() { let j
 
 /// the replayed defect witnesses (DESIGN section 4 rows 11, 12 and the ones found while building), always cases 0..
 fn witness_data(idx: usize) -> Option<(Vec<Q>, Vec<String>, Opts)> {
-    let o = Opts { mode10: false, use_rdf_type: false, dir: 0, spaces: 0, native: false };
+    let o = Opts { mode10: false, use_rdf_type: false, dir: 0, spaces: 0, native: false, base: None, ctr: true };
     let (b, c, n) = (bnode("b"), bnode("c"), None::<ST>);
     let q = |s: &ST, p: &ST, o: &ST, g: &Option<ST>| -> Q { ([s.clone(), p.clone(), o.clone()], g.clone()) };
     let cell = |g: &Option<ST>| vec![q(&b, &rdf("first"), &plain("a"), g), q(&b, &rdf("rest"), &rdf("nil"), g)];
@@ -776,7 +940,7 @@ fn witness_data(idx: usize) -> Option<(Vec<Q>, Vec<String>, Opts)> {
 }
 
 fn witness_case(idx: usize) -> Option<Case> {
-    witness_data(idx).map(|(q, tags, o)| Case { docs: vec![q], tags, recipe: recipe_of(&o), via_default: false, sink: Sink::Stringifier, seed: idx as u64 })
+    witness_data(idx).map(|(q, tags, o)| Case { docs: vec![q], tags, recipe: recipe_of(&o), via_default: false, sink: Sink::Stringifier, seed: idx as u64, kind: Kind::Random })
 }
 fn gen_dataset(r: &mut Rng, single: bool) -> (Vec<Q>, Vec<String>) {
     let mut g = G { r, q: vec![], tags: vec![], nb: 0 };
@@ -790,12 +954,251 @@ fn gen_dataset(r: &mut Rng, single: bool) -> (Vec<Q>, Vec<String>) {
     (dedup(&q), tags)
 }
 /// one case: the datasets given to one serializer (usually one), how the options are built, where the output goes
-struct Case { docs: Vec<Vec<Q>>, tags: Vec<String>, recipe: Vec<Op>, via_default: bool, sink: Sink, seed: u64 }
+struct Case { docs: Vec<Vec<Q>>, tags: Vec<String>, recipe: Vec<Op>, via_default: bool, sink: Sink, seed: u64, kind: Kind }
+/// the random stream, and the directed streams next to it
+#[derive(Clone, Copy, Debug, PartialEq)]
+enum Kind { Random, Big, Ids, Entries }
+
+// ------------------------------------------------------------------ directed stream 1: sizes
+// datasets with MANY values for one (subject, predicate), many subjects, many predicates, many graphs, long lists -- the sizes
+// sit on both sides of the powers of two a small-size fast path would use -- and, among the values, "lookalikes": terms that
+// have the same text and differ by language tag, datatype or kind
+const N_BIG: usize = 72;
+const SIZES: [usize; 12] = [31, 32, 33, 34, 40, 63, 64, 65, 100, 129, 200, 257];
+fn lookalike_groups() -> Vec<Vec<ST>> {
+    let xsd = |l: &str, d: &str| lit_dt(l, &format!("{XSD}{d}"));
+    vec![
+        vec![lit_lang("chat", "en"), lit_lang("chat", "fr"), plain("chat"), lit_dt("chat", "http://e/dt"), lit_lang("chat", "en-GB")],
+        vec![plain("7"), xsd("7", "integer"), xsd("7", "decimal"), xsd("7", "byte"), lit_lang("7", "en")],
+        vec![iri("tag:o"), plain("tag:o"), xsd("tag:o", "anyURI"), lit_lang("tag:o", "en")],
+        vec![bnode("o1"), plain("_:o1"), plain("o1"), iri("tag:o1"), xsd("o1", "NCName")],
+        vec![plain("true"), xsd("true", "boolean"), lit_lang("true", "en")],
+        vec![plain(""), lit_lang("", "en"), lit_dt("", "http://e/dt")],
+        vec![iri("http://e/a"), plain("http://e/a"), xsd("http://e/a", "anyURI")],
+        vec![plain("v3"), lit_lang("v3", "fr"), iri("tag:v3"), bnode("v3"), lit_dt("3", &format!("{XSD}integer"))],
+    ]
+}
+fn size_class(n: usize) -> &'static str { match n { 0..=32 => "up to 32", 33..=64 => "33..64", 65..=128 => "65..128", _ => "more than 128" } }
+fn gen_big(r: &mut Rng, k: usize) -> (Vec<Q>, Vec<String>) {
+    let n = SIZES[(k / 6) % SIZES.len()];
+    let groups = lookalike_groups();
+    // 2..4 groups of lookalikes
+    let mut las: Vec<Vec<ST>> = vec![]; for _ in 0..r.range(2, 4) { let g = r.pick(&groups).clone(); if !las.contains(&g) { las.push(g); } }
+    let filler_kind = r.below(6);
+    let filler = |i: usize| -> ST { match if filler_kind == 3 { i % 3 } else { filler_kind } { 0 => plain(&format!("v{i}")), 1 => iri(&format!("tag:v{i}")), 2 => bnode(&format!("v{i}")), 4 => lit_dt(&format!("{}", 1000 + i), &format!("{XSD}integer")), _ => lit_lang(&format!("v{i}"), "en") } };
+    // the values in their order of arrival: where the lookalikes stand with respect to the n other values
+    let placement = r.below(4);
+    let arrange = |r: &mut Rng, n: usize| -> Vec<ST> {
+        let fill: Vec<ST> = (0..n).map(&filler).collect();
+        let flat: Vec<ST> = las.iter().flatten().cloned().collect();
+        match placement {
+            0 => [fill, flat].concat(),
+            1 => [flat, fill].concat(),
+            2 => { let firsts: Vec<ST> = las.iter().map(|g| g[0].clone()).collect(); let others: Vec<ST> = las.iter().flat_map(|g| g[1..].to_vec()).collect(); [firsts, fill, others].concat() }
+            _ => { let mut v = [fill, flat].concat(); shuffle(&mut v, r); v }
+        }
+    };
+    let mut tags = vec![format!("sizes: lookalike values {}", ["after the others", "before the others", "one of each group first, the others last", "interleaved"][placement])];
+    let s = if r.chance(1, 2) { iri("tag:s") } else { bnode("s") };
+    let g: Option<ST> = match r.below(4) { 0 | 1 => None, 2 => Some(iri("tag:g")), _ => Some(bnode("g")) };
+    let mut q: Vec<Q> = vec![];
+    let pattern = k % 6;
+    match pattern {
+        0 => {
+            tags.push(format!("sizes: one (subject, predicate) with many values ({})", size_class(n)));
+            let p = match r.below(8) { 0 => rdf("type"), 1 => rdf("value"), _ => iri("tag:p") };
+            if p == rdf("type") { tags.push("sizes: many values of rdf:type".into()); }
+            for o in arrange(r, n) { q.push(([s.clone(), p.clone(), o], g.clone())); }
+        }
+        1 => {
+            tags.push(format!("sizes: many subjects ({})", size_class(n)));
+            let vals = arrange(r, n);
+            for (i, o) in vals.iter().enumerate() { let si = if i % 2 == 0 { iri(&format!("tag:n{}", i / 2)) } else { bnode(&format!("n{}", i / 2)) }; q.push(([si.clone(), iri("tag:p"), o.clone()], g.clone())); if i % 5 == 0 { q.push(([si, iri("tag:next"), iri(&format!("tag:n{}", (i / 2 + 1) % n))], g.clone())); } }
+        }
+        2 => {
+            tags.push(format!("sizes: many graphs ({})", size_class(n)));
+            let vals = arrange(r, n);
+            for (i, o) in vals.iter().enumerate() {
+                let gi = Some(if i % 3 == 2 { bnode(&format!("g{i}")) } else { iri(&format!("tag:g{i}")) });
+                q.push(([s.clone(), iri("tag:p"), o.clone()], gi.clone()));
+                // the same triple in every graph, and the graph name described in the default graph now and then
+                q.push(([s.clone(), iri("tag:p"), lit_lang("chat", "en")], gi.clone()));
+                if i % 7 == 0 { q.push(([gi.clone().unwrap(), iri("tag:p"), o.clone()], None)); }
+            }
+        }
+        3 => {
+            tags.push(format!("sizes: long list ({})", size_class(n)));
+            // the items of a list may repeat: every lookalike twice
+            let mut items = arrange(r, n.min(130)); let again: Vec<ST> = las.iter().flatten().cloned().collect(); items.extend(again);
+            let cells: Vec<ST> = (0..items.len()).map(|i| bnode(&format!("c{i}"))).collect();
+            q.push(([s.clone(), iri("tag:p"), cells[0].clone()], g.clone()));
+            for i in 0..items.len() { q.push(([cells[i].clone(), rdf("first"), items[i].clone()], g.clone())); q.push(([cells[i].clone(), rdf("rest"), cells.get(i + 1).cloned().unwrap_or_else(|| rdf("nil"))], g.clone())); }
+        }
+        4 => {
+            tags.push(format!("sizes: one subject with many predicates ({})", size_class(n)));
+            let vals = arrange(r, n);
+            for (i, o) in vals.iter().enumerate() { q.push(([s.clone(), iri(&format!("tag:p{}", i * 2 / 3)), o.clone()], g.clone())); }
+        }
+        _ => {
+            tags.push(format!("sizes: many values for the same subject in two graphs, and a long list ({})", size_class(n)));
+            let h = Some(iri("tag:h"));
+            for o in arrange(r, n) { q.push(([s.clone(), iri("tag:p"), o], g.clone())); }
+            for o in arrange(r, n / 2 + 17) { q.push(([s.clone(), iri("tag:p"), o], h.clone())); }
+            let items = arrange(r, (n / 2).min(100)); let cells: Vec<ST> = (0..items.len()).map(|i| bnode(&format!("c{i}"))).collect();
+            q.push(([s.clone(), iri("tag:q"), cells[0].clone()], h.clone()));
+            for i in 0..items.len() { q.push(([cells[i].clone(), rdf("first"), items[i].clone()], h.clone())); q.push(([cells[i].clone(), rdf("rest"), cells.get(i + 1).cloned().unwrap_or_else(|| rdf("nil"))], h.clone())); }
+        }
+    }
+    // (a list keeps the order of its cells whatever the order of the quads; the other datasets are sometimes given in another order)
+    if placement == 3 && r.chance(1, 2) { shuffle(&mut q, r); tags.push("sizes: quads shuffled".into()); }
+    (dedup(&q), tags)
+}
+fn big_case(r: &mut Rng, k: usize) -> Case {
+    let aim = Opts { mode10: r.chance(1, 3), use_rdf_type: r.chance(1, 3), dir: [0, 0, 0, 1, 2][r.below(5)], spaces: if r.chance(1, 4) { 2 } else { 0 }, native: r.chance(1, 6), base: None, ctr: true };
+    let mut recipe = if r.chance(1, 2) { recipe_of(&aim) } else { gen_recipe(r) };
+    for op in recipe_of(&aim) { if r.chance(2, 3) { let at = r.below(recipe.len() + 1); recipe.insert(at, op); } }
+    let (quads, tags) = gen_big(r, k);
+    let sink = match r.below(8) { 0..=3 => Sink::Stringifier, 4 => Sink::VecWriter, 5 => Sink::MutVec, 6 => Sink::Jsonifier, _ => Sink::Chunked };
+    Case { docs: vec![quads], tags, recipe, via_default: r.chance(1, 2), sink, seed: r.next(), kind: Kind::Big }
+}
+
+// ------------------------------------------------------------------ directed stream 2: the options that say how IRIs may be written
+// a base IRI (on the serializer and on the parser), compactToRelative on and off, the other options at random -- and a dataset whose
+// IRIs are special with respect to that base: the base itself, IRIs under its directory whose remainder looks like a JSON-LD
+// keyword ('@type', '@bob'), is empty, is only a query or a fragment, has a first segment with a colon, goes through '..'
+const N_IDS: usize = 132;
+const BASES: [&str; 12] = [
+    "http://example.org/dir/doc.jsonld", "http://example.org/dir/", "http://example.org/dir/doc?q=1", "http://example.org/", "http://example.org/dir/doc#frag", "http://example.org",
+    "http://e/base/", "http://example.org/a/b/c/d;p?q", "tag:base", "urn:x:y", "file:///dir/doc", "http://example.org/dir/@context",
+];
+const KEYWORD_REFS: [&str; 12] = ["@type", "@id", "@bob", "@context", "@graph", "@value", "@list", "@vocab", "@base", "@none", "@json", "@Alice"];
+const OTHER_REFS: [&str; 30] = ["@", "@x1", "@@a", "@type/x", "x/@type", "@type?q", "@type#f", "", "#", "#frag", "?q=2", "?", "a", "a/", "sub/b", "sub/x:y", "./x:y", "../up", "..", "../", "../../z", ".", "/root", "/", "//other.org/x", "doc.jsonld", "%40type", "a;b", "\u{e9}t\u{e9}", "@type/"];
+const RAW_SUFFIXES: [&str; 8] = ["a/../b", "./c", "..", "@type/../@id", ".", "a//b", "../@type", "@bob/."];
+fn valid_iri(s: &str) -> bool { sophia_iri::Iri::new(s).is_ok() }
+/// the IRIs that are special with respect to `base` (with the relative reference that names them from the base)
+fn special_iris(base: &str, r: &mut Rng) -> Vec<(String, String)> {
+    let mut out: Vec<(String, String)> = vec![];
+    let mut add = |rf: &str, i: String| { if valid_iri(&i) && has_scheme(&i) && !out.iter().any(|e| e.1 == i) { out.push((rf.to_string(), i)); } };
+    for _ in 0..r.range(2, 3) { let rf = r.ps(&KEYWORD_REFS); add(rf, resolve3986(base, rf)); }
+    for _ in 0..r.range(1, 4) { let rf = r.ps(&OTHER_REFS); add(rf, resolve3986(base, rf)); }
+    // not normalised: the directory of the base followed by a suffix with dot segments
+    if let Some(i) = base.rfind('/') { if r.chance(1, 2) { let sfx = r.ps(&RAW_SUFFIXES); add(&format!("(not normalised) {sfx}"), format!("{}{sfx}", &base[..=i])); } }
+    if r.chance(1, 3) { add("(the base itself)", base.to_string()); }
+    if r.chance(1, 3) { add("(the base without its fragment and query)", base.split(['?', '#']).next().unwrap().to_string()); }
+    if r.chance(1, 3) { let other = match r.below(3) { 0 => base.replacen("http:", "https:", 1), 1 => format!("{}x/y", base.split(['?', '#']).next().unwrap().trim_end_matches(|c| c != '/')), _ => "http://example.org/other/c".to_string() }; add("(outside the base)", other); }
+    out
+}
+fn gen_ids(r: &mut Rng, k: usize) -> (Vec<Q>, Vec<String>, &'static str) {
+    let base = BASES[k % BASES.len()];
+    let sp = special_iris(base, r);
+    let mut tags: Vec<String> = vec![];
+    for (rf, _) in &sp { tags.push(if KEYWORD_REFS.contains(&rf.as_str()) { "ids: IRI under the base whose remainder has the form of a keyword".into() } else if rf.starts_with('(') { format!("ids: IRI {rf}").replace(|c: char| c.is_ascii_digit(), "") } else { "ids: IRI under the base (other remainders)".into() }); }
+    tags.sort(); tags.dedup();
+    let pool: Vec<ST> = sp.iter().map(|e| iri(&e.1)).collect();
+    let mut q: Vec<Q> = vec![];
+    let any = |r: &mut Rng| -> ST { match r.below(6) { 0 => bnode("b"), 1 => iri("tag:x"), _ => r.pick(&pool).clone() } };
+    // every special IRI in a position of its own, by turns: subject, object, graph name, rdf:type object, predicate, list item
+    for (j, t) in pool.iter().enumerate() {
+        let g: Option<ST> = match r.below(4) { 0 => Some(any(r)), _ => None };
+        match (j + k / BASES.len()) % 6 {
+            0 => { let o = if r.chance(1, 2) { any(r) } else { plain(&sp[j].0) }; q.push(([t.clone(), iri("tag:p"), o], g)); }
+            1 => q.push(([any(r), iri("tag:p"), t.clone()], g)),
+            2 => q.push(([any(r), iri("tag:p"), plain(&sp[j].0)], Some(t.clone()))),
+            3 => q.push(([any(r), rdf("type"), t.clone()], g)),
+            4 => q.push(([any(r), t.clone(), any(r)], g)),
+            _ => { let c = bnode(&format!("c{j}")); q.push(([any(r), iri("tag:p"), c.clone()], g.clone())); q.push(([c.clone(), rdf("first"), t.clone()], g.clone())); q.push(([c, rdf("rest"), rdf("nil")], g)); }
+        }
+    }
+    for _ in 0..r.below(4) { let g = if r.chance(1, 3) { Some(any(r)) } else { None }; q.push(([any(r), iri("tag:p"), any(r)], g)); }
+    if r.chance(1, 2) { shuffle(&mut q, r); }
+    (dedup(&q), tags, base)
+}
+fn ids_case(r: &mut Rng, k: usize) -> Case {
+    let (quads, mut tags, base) = gen_ids(r, k);
+    let aim = Opts { mode10: r.chance(1, 3), use_rdf_type: r.chance(1, 3), dir: [0, 0, 0, 1, 2][r.below(5)], spaces: if r.chance(1, 4) { 2 } else { 0 }, native: false, base: Some(base), ctr: true };
+    // the other options at random; the base IRI and compactToRelative (default / true / false) at a random place, once
+    let mut recipe: Vec<Op> = gen_recipe(r).into_iter().filter(|op| !matches!(op, Op::Base(_) | Op::CompactToRelative(_))).collect();
+    for op in recipe_of(&Opts { base: None, ..aim }) { if r.chance(2, 3) { let at = r.below(recipe.len() + 1); recipe.insert(at, op); } }
+    let at = r.below(recipe.len() + 1); recipe.insert(at, Op::Base(Some(base)));
+    match k / BASES.len() % 3 { 0 => tags.push("ids: compact_to_relative left at its default".into()), 1 => { let at = r.below(recipe.len() + 1); recipe.insert(at, Op::CompactToRelative(true)); tags.push("ids: compact_to_relative(true)".into()); } _ => { let at = r.below(recipe.len() + 1); recipe.insert(at, Op::CompactToRelative(false)); tags.push("ids: compact_to_relative(false)".into()); } }
+    let sink = match r.below(6) { 0..=3 => Sink::Stringifier, 4 => Sink::VecWriter, _ => Sink::Jsonifier };
+    Case { docs: vec![quads], tags, recipe, via_default: r.chance(1, 2), sink, seed: r.next(), kind: Kind::Ids }
+}
+
+// ------------------------------------------------------------------ directed stream 3: the parser's entry points on large documents
+// documents larger than the buffers a reader may use (8 KiB, 64 KiB), made of non-ASCII text, with a multi-byte character lying
+// across a multiple of 4096 / 8192; read back through every entry point
+const N_ENTRIES: usize = 36;
+const UNITS: [&str; 8] = ["\u{e9}", "\u{20ac}", "\u{1f600}", "a\u{e9}", "\u{e9}\u{20ac}\u{1f600}x", "\u{5e9}\u{5dc}\u{5d5}\u{5dd} ", "\u{7ff}\u{800}\u{ffff}\u{10000}", "\u{10ffff}\u{80}"];
+fn entries_dataset(unit: &str, pad: usize, total: usize, shape: usize) -> Vec<Q> {
+    let body = |bytes: usize, pad: usize| -> String { format!("{}{}", "x".repeat(pad), unit.repeat(bytes / unit.len() + 1)) };
+    let n = 3;
+    let mut q: Vec<Q> = vec![];
+    for i in 0..n {
+        let text = body(total / n, if i == 0 { pad } else { 0 });
+        let s = if shape % 2 == 1 && valid_iri(&format!("http://e/{}{i}", unit.trim())) { iri(&format!("http://e/{}{i}", unit.trim())) } else { iri(&format!("tag:s{i}")) };
+        let o = match (shape / 2 + i) % 3 { 0 => plain(&text), 1 => lit_lang(&text, "en"), _ => lit_dt(&text, "http://e/dt") };
+        let g = if shape % 3 == 2 && i == 1 { Some(iri("tag:g")) } else { None };
+        if shape % 4 == 3 && i == 2 { let c = bnode("c"); q.push(([s, iri("tag:p"), c.clone()], g.clone())); q.push(([c.clone(), rdf("first"), o], g.clone())); q.push(([c, rdf("rest"), rdf("nil")], g)); }
+        else { q.push(([s, iri("tag:p"), o], g)); }
+    }
+    q
+}
+/// the multiples of 4096 that fall inside a multi-byte character of the document
+fn straddled(bytes: &[u8]) -> Vec<usize> { (1..=bytes.len() / 4096).map(|m| m * 4096).filter(|&b| b < bytes.len() && bytes[b] & 0xC0 == 0x80).collect() }
+fn entries_case(r: &mut Rng, k: usize) -> Case {
+    let total = [9_000, 13_000, 17_000, 9_500, 26_000, 34_000, 12_000, 67_000, 20_000][k % 9] + r.below(700) + if k % 18 == 17 { 66_000 } else { 0 };
+    let unit = UNITS[k % UNITS.len()];
+    let spaces = if k % 3 == 1 { 2 } else { 0 };
+    let o = Opts { mode10: r.chance(1, 4), use_rdf_type: r.chance(1, 3), dir: 0, spaces, native: false, base: None, ctr: true };
+    // the padding is chosen so that the targeted multiple of 4096 (8192 for the even cases) lies inside a character
+    let target = if k % 2 == 0 { 8192 * (1 + (k / 2) % (total / 8192).max(1)) } else { 4096 * (1 + 2 * ((k / 2) % (total / 8192).max(1))) };
+    let shape = r.below(12);
+    let mut best = entries_dataset(unit, 0, total, shape);
+    for pad in 0..16 {
+        let d = entries_dataset(unit, pad, total, shape);
+        if let Ok(t) = serialise(&d, &o) { if t.len() > target && t.as_bytes()[target] & 0xC0 == 0x80 { best = d; break; } }
+    }
+    let tags = vec![format!("entries: large document of {} KiB and more", match total { 0..=16_383 => "8", 16_384..=65_535 => "16", _ => "64" })];
+    Case { docs: vec![best], tags, recipe: recipe_of(&o), via_default: false, sink: Sink::Stringifier, seed: r.next(), kind: Kind::Entries }
+}
+/// every entry point, for a document of that length
+fn all_entries(r: &mut Rng, bytes: &[u8]) -> Vec<Entry> {
+    let len = bytes.len();
+    let inner: Vec<usize> = straddled(bytes);
+    let mut v = vec![Entry::Str, Entry::Slice, Entry::Cursor, Entry::BufDefault, Entry::BufCap(4096), Entry::BufCap(65536), Entry::BufCap(*r.pick(&[1, 2, 3, 5, 7, 13, 64, 100, 1000])), Entry::BufCap(16384),
+        Entry::Dribble(8192), Entry::Dribble(4096), Entry::Dribble(*r.pick(&[1, 2, 3, 5, 7])), Entry::Dribble(r.range(4090, 4100)), Entry::Dribble(r.range(8189, 8195)), Entry::Dribble(65536),
+        Entry::Trickle { read: r.range(1, 5000), cap: 8192, interrupts: true }, Entry::Trickle { read: 100_000, cap: *r.pick(&[4096, 8192, 32768]), interrupts: false }];
+    // two buffers, cut inside a character at a multiple of 4096 when there is one, and at a random place
+    for _ in 0..2 { let at = if inner.is_empty() { r.below(len + 1) } else { *r.pick(&inner) }; v.push(Entry::Chain(at)); v.push(Entry::Deque(at)); }
+    v.push(Entry::Chain(r.below(len + 1)));
+    v
+}
+/// invalid variants of the bytes of a document (no entry point may accept them, whatever the chunks)
+fn utf8_mutants(r: &mut Rng, bytes: &[u8]) -> Vec<(String, Vec<u8>)> {
+    let inner: Vec<usize> = bytes.iter().enumerate().filter(|(_, b)| **b & 0xC0 == 0x80).map(|(i, _)| i).collect();
+    if inner.is_empty() { return vec![]; }
+    let mut out = vec![];
+    let at = *r.pick(&inner);
+    out.push((format!("cut inside the character at byte {at}"), bytes[..at].to_vec()));
+    let at = *r.pick(&inner);
+    let mut v = bytes.to_vec(); v[at] = b'x'; out.push((format!("continuation byte {at} replaced by 'x'"), v));
+    let at = r.below(bytes.len());
+    let bad: &[u8] = *r.pick(&[&[0x80u8][..], &[0xC0, 0x80], &[0xED, 0xA0, 0x80], &[0xF5, 0x80, 0x80, 0x80], &[0xF4, 0x90, 0x80, 0x80], &[0xE0, 0x80, 0x80], &[0xFF]]);
+    let mut start = at; while start > 0 && bytes[start] & 0xC0 == 0x80 { start -= 1; }
+    let mut v = bytes[..start].to_vec(); v.extend_from_slice(bad); v.extend_from_slice(&bytes[start..]); out.push((format!("ill-formed sequence {bad:02X?} inserted at byte {start}"), v));
+    out
+}
 /// the recipe of the canonical setter order for given settings
-fn recipe_of(o: &Opts) -> Vec<Op> { vec![Op::Mode(o.mode10), Op::RdfType(o.use_rdf_type), Op::Native(o.native), Op::Spaces(o.spaces), Op::Dir(o.dir)] }
+fn recipe_of(o: &Opts) -> Vec<Op> {
+    let mut v = vec![Op::Mode(o.mode10), Op::RdfType(o.use_rdf_type), Op::Native(o.native), Op::Spaces(o.spaces), Op::Dir(o.dir)];
+    if o.base.is_some() { v.push(Op::Base(o.base)); }
+    if !o.ctr { v.push(Op::CompactToRelative(false)); }
+    v
+}
 fn gen_case(r: &mut Rng, single: bool) -> Case {
     // the settings aimed at (the distribution of the first version of this harness) ...
-    let aim = Opts { mode10: r.chance(1, 3), use_rdf_type: r.chance(1, 3), dir: [0, 0, 1, 2, 2][r.below(5)], spaces: if r.chance(1, 3) { 2 } else { 0 }, native: r.chance(1, 8) };
+    let aim = Opts { mode10: r.chance(1, 3), use_rdf_type: r.chance(1, 3), dir: [0, 0, 1, 2, 2][r.below(5)], spaces: if r.chance(1, 3) { 2 } else { 0 }, native: r.chance(1, 8), base: None, ctr: true };
     // ... are written at random places of a random recipe (a later setter of the same option wins: Expect follows the recipe)
     let mut recipe = gen_recipe(r);
     if !recipe.is_empty() { for op in recipe_of(&aim) { if r.chance(2, 3) { let at = r.below(recipe.len() + 1); recipe.insert(at, op); } } }
@@ -803,9 +1206,149 @@ fn gen_case(r: &mut Rng, single: bool) -> Case {
     let mut docs = vec![quads];
     if r.chance(1, 8) { let (q2, t2) = gen_dataset(r, true); docs.push(q2); tags.extend(t2); tags.push("several serialisations with one serializer".into()); if r.chance(1, 4) { docs.push(vec![]); } }
     let sink = match r.below(14) { 0..=3 => Sink::Stringifier, 4 => Sink::VecWriter, 5 => Sink::MutVec, 6..=8 => Sink::Chunked, 9 | 10 => Sink::Budget(if r.chance(1, 4) { r.below(4000) } else { r.below(400) }), 11 | 12 => Sink::Jsonifier, _ => Sink::FailingSource(r.below(6)) };
-    Case { docs, tags, recipe, via_default: r.chance(1, 2), sink, seed: r.next() }
+    Case { docs, tags, recipe, via_default: r.chance(1, 2), sink, seed: r.next(), kind: Kind::Random }
+}
+/// the directed cases come right after the witnesses, whatever --n is
+const N_WITNESS: usize = 7;
+fn directed_case(idx: usize, r: &mut Rng) -> Option<Case> {
+    let k = idx.checked_sub(N_WITNESS)?;
+    if k < N_BIG { return Some(big_case(r, k)); }
+    let k = k - N_BIG;
+    if k < N_IDS { return Some(ids_case(r, k)); }
+    let k = k - N_IDS;
+    if k < N_ENTRIES { return Some(entries_case(r, k)); }
+    None
+}
+/// compact description of the bytes of a document for the model: segments (pattern, number of repetitions)
+fn coq_segs(bytes: &[u8]) -> String {
+    let mut segs: Vec<(Vec<u8>, usize)> = vec![]; let mut i = 0;
+    while i < bytes.len() {
+        let mut best = (1usize, 1usize);
+        for p in 1..=24.min(bytes.len() - i) { let mut rep = 1; while i + (rep + 1) * p <= bytes.len() && bytes[i + rep * p..i + (rep + 1) * p] == bytes[i..i + p] { rep += 1; } if rep >= 3 && rep * p > best.0 * best.1 { best = (p, rep); } }
+        if best.1 >= 3 { segs.push((bytes[i..i + best.0].to_vec(), best.1)); i += best.0 * best.1; }
+        else { match segs.last_mut() { Some((v, 1)) if v.len() < 64 => v.push(bytes[i]), _ => segs.push((vec![bytes[i]], 1)) } i += 1; }
+    }
+    coq_list(segs.iter().map(|(v, n)| format!("({}, {n})", coq_bytes(v))))
+}
+fn is_utf8_error(msg: &str) -> bool { let m = msg.to_ascii_lowercase(); m.contains("utf-8") || m.contains("utf8") }
+/// the document of an Entries case read back through every entry point: each one must give the expected dataset (the property,
+/// "parsing the result back", does not depend on how the bytes reach the parser); invalid variants must be refused by all.
+/// Returns the failures and, for the model, the terms `entry_ok <bytes> [(policy, accepted as UTF-8)]`
+fn entries_sweep(r: &mut Rng, txt: &str, o: &Opts, quads: &[Q], dist: &mut Vec<String>) -> (Vec<String>, Vec<String>) {
+    let expected: Vec<Q> = quads.iter().filter(|q| expressible(q)).cloned().collect();
+    let bytes = txt.as_bytes();
+    let across = straddled(bytes);
+    let what = format!("a valid document of {} bytes (a multi-byte character lies across the byte offsets {:?}{})", bytes.len(), &across[..across.len().min(6)], if across.len() > 6 { ", ..." } else { "" });
+    for b in &across { if b % 8192 == 0 { dist.push(format!("entries:character across the multiple {} of 8192", b / 8192)); } }
+    dist.push(format!("entries:{} multiples of 4096 inside a character", match across.len() { 0 => "0", 1 => "1", 2..=4 => "2-4", _ => "5+" }));
+    let mut fails: Vec<String> = vec![]; let mut coq: Vec<String> = vec![];
+    let run = |e: &Entry, data: &[u8], module_level: bool| -> Result<Result<Vec<Q>, String>, String> {
+        let (e, data, o) = (e.clone(), data.to_vec(), *o);
+        quiet(true);
+        let res = std::panic::catch_unwind(move || {
+            let p = JsonLdParser::new_with_options(o.build());
+            let mut out: Vec<Q> = vec![]; let mut bad: Vec<String> = vec![];
+            let mut src = if module_level { sophia_jsonld::parser::parse_bufread(std::io::BufReader::new(&data[..])) } else { run_entry(&p, &data, &e) };
+            match src.for_each_quad(|q| push_quad(q, &mut out, &mut bad)) { Ok(()) => Ok(out), Err(e) => Err(format!("parse error: {e}")) }
+        });
+        quiet(false);
+        res.map_err(panic_msg)
+    };
+    let mut obs: Vec<String> = vec![];
+    let mut entries: Vec<(Entry, bool)> = all_entries(r, bytes).into_iter().map(|e| (e, false)).collect();
+    if !o.mode10 { entries.push((Entry::BufDefault, true)); }
+    for (e, module_level) in &entries {
+        let name = if *module_level { "sophia_jsonld::parser::parse_bufread(BufReader::new(&[u8]))".to_string() } else { e.show() };
+        dist.push(format!("entries:{}", e.kind()));
+        let accepted = match run(e, bytes, *module_level) {
+            Ok(Ok(back)) => { let back = dedup(&back); if !iso(&expected, &back) { fails.push(format!("PARSER ENTRY POINT {name} DIVERGES on {what}: {} quads instead of {}{}", back.len(), expected.len(), missing_note(&expected, &back))); } true }
+            Ok(Err(msg)) => { fails.push(format!("PARSER ENTRY POINT {name} REJECTS {what} that parse_str reads: {}", clip(&msg))); !is_utf8_error(&msg) }
+            Err(p) => { fails.push(format!("PARSER ENTRY POINT {name} PANICS on {what}: {}", clip(&p))); false }
+        };
+        if let Some(pol) = e.policy(bytes.len()) { let t = format!("({pol}, {})", coq_bool(accepted)); if !obs.contains(&t) { obs.push(t); } }
+    }
+    // (the model evaluates every reader on the documents up to 40 KiB, and eight of them on the larger ones: its cost is per byte and per reader)
+    let large = bytes.len() > 40_000;
+    if large { let n = obs.len(); obs = obs.into_iter().enumerate().filter(|(i, t)| !t.starts_with("(Every 1,") && (*i < 4 || *i + 4 >= n)).map(|(_, t)| t).collect(); }
+    coq.push(format!("entry_ok (expand_segs {}) {}", coq_segs(bytes), coq_list(obs)));
+    for (desc, mb) in utf8_mutants(r, bytes) {
+        let mut obs: Vec<String> = vec![];
+        for e in [Entry::Slice, Entry::BufDefault, Entry::BufCap(r.range(1, 9)), Entry::Dribble(r.range(1, 7)), Entry::Dribble(4096), Entry::Chain(r.below(mb.len() + 1))] {
+            dist.push("entries:invalid UTF-8 variant".into());
+            let accepted = match run(&e, &mb, false) {
+                Ok(Ok(back)) => { fails.push(format!("PARSER ENTRY POINT {} ACCEPTS bytes that are not UTF-8 ({desc}; {} quads read)", e.show(), back.len())); true }
+                Ok(Err(msg)) => !is_utf8_error(&msg),
+                Err(p) => { fails.push(format!("PARSER ENTRY POINT {} PANICS on bytes that are not UTF-8 ({desc}): {}", e.show(), clip(&p))); false }
+            };
+            if let Some(pol) = e.policy(mb.len()) { obs.push(format!("({pol}, {})", coq_bool(accepted))); }
+        }
+        if large { obs.truncate(3); if coq.len() >= 2 { continue; } }
+        coq.push(format!("entry_ok (expand_segs {}) {}", coq_segs(&mb), coq_list(obs)));
+    }
+    (fails, coq)
+}
+/// the IRIs of a dataset (every position, datatypes included) and the strings a document has where JSON-LD expects node
+/// identifiers or properties ('@id', '@type' of node objects, property keys), for the model (Wide.v: ids_ok)
+fn iris_of(t: &ST, out: &mut BTreeSet<String>) {
+    match t { SimpleTerm::Iri(i) => { out.insert(i.as_str().to_string()); } SimpleTerm::LiteralDatatype(_, d) => { out.insert(d.as_str().to_string()); } SimpleTerm::Triple(tr) => for x in tr.iter() { iris_of(x, out); }, _ => {} }
+}
+fn id_strings(j: &J, out: &mut BTreeSet<String>) {
+    match j {
+        J::Arr(v) => for x in v { id_strings(x, out); },
+        J::Obj(entries) => {
+            if j.get("@value").is_some() { return; }
+            for (k, v) in entries {
+                match k.as_str() {
+                    "@id" => if let J::Str(s) = v { out.insert(s.clone()); },
+                    "@type" => { if let J::Arr(ts) = v { for t in ts { if let J::Str(s) = t { out.insert(s.clone()); } } } }
+                    "@graph" | "@list" => id_strings(v, out),
+                    k => { if !k.starts_with('@') { out.insert(k.to_string()); } id_strings(v, out); }
+                }
+            }
+        }
+        _ => {}
+    }
+}
+/// the (graph, subject, predicate) of the dataset that has the most values: its objects in their order of arrival, as the
+/// serializer's RdfObject values, and the number of values the document has there, for the model (Wide.v: values_ok)
+fn coq_values(quads: &[Q], txt: &str) -> Option<String> {
+    let mut groups: Vec<((Option<ST>, ST, ST), Vec<ST>)> = vec![];
+    for q in quads.iter().filter(|q| expressible(q) && q.0[1] != rdf("type")) {
+        let k = (q.1.clone(), q.0[0].clone(), q.0[1].clone());
+        match groups.iter_mut().find(|e| e.0 == k) { Some(e) => e.1.push(q.0[2].clone()), None => groups.push((k, vec![q.0[2].clone()])) }
+    }
+    let best = groups.iter().max_by_key(|e| e.1.len())?;
+    let id_of = |t: &ST| -> String { match t { SimpleTerm::BlankNode(b) => format!("_:{}", b.as_str()), SimpleTerm::Iri(i) => i.as_str().to_string(), _ => String::new() } };
+    let doc = read_json(txt).ok()?;
+    let find = |nodes: &Vec<J>, id: &str| -> Option<J> { nodes.iter().find(|n| n.get("@id").and_then(|x| x.str().ok()) == Some(id)).cloned() };
+    let tops = doc.arr().ok()?;
+    let node = match &best.0.0 { None => find(tops, &id_of(&best.0.1))?, Some(g) => { let gn = find(tops, &id_of(g))?; find(gn.get("@graph")?.arr().ok()?, &id_of(&best.0.1))? } };
+    let observed = node.get(&id_of(&best.0.2))?.arr().ok()?.len();
+    let objs = best.1.iter().map(|t| match t {
+        SimpleTerm::LiteralLanguage(l, tag) => format!("LangString {} {}", coq_str(l), coq_str(tag.as_str())),
+        SimpleTerm::LiteralDatatype(l, d) => format!("TypedLiteral {} {}", coq_str(l), coq_str(d.as_str())),
+        t => format!("Node 0 {}", coq_str(&id_of(t))),
+    });
+    Some(format!("values_ok {} {observed}", coq_list(objs)))
+}
+fn coq_ids(docs: &[Vec<Q>], texts: &[&String], o: &Opts) -> String {
+    let mut ins = BTreeSet::new(); let mut obs = BTreeSet::new();
+    for d in docs { for q in d { if expressible(q) { for t in &q.0 { iris_of(t, &mut ins); } if let Some(g) = &q.1 { iris_of(g, &mut ins); } } } }
+    // (the fixed vocabulary the serializer may add: rdf:type & co are in the dataset when they are in the document, except the list vocabulary)
+    for t in texts { if let Ok(j) = read_json(t) { id_strings(&j, &mut obs); } }
+    let obs: Vec<String> = obs.into_iter().filter(|s| !s.starts_with("_:")).collect();
+    format!("ids_ok {} {} {} {}", coq_opt(o.base.map(coq_str)), coq_bool(o.ctr), coq_list(ins.iter().map(|s| coq_str(s))), coq_list(obs.iter().map(|s| coq_str(s))))
 }
 
+/// long texts (the documents of the large cases) are cut in the reports; the replay (--only) prints them whole
+fn clip(s: &str) -> String { if s.len() <= 3000 { s.to_string() } else { let mut a = 1500; while !s.is_char_boundary(a) { a -= 1; } let mut b = s.len() - 1000; while !s.is_char_boundary(b) { b += 1; } format!("{} ...[{} bytes]... {}", &s[..a], s.len() - a - (s.len() - b), &s[b..]) } }
+/// which quads without blank nodes are missing / in excess (what a reader of the report needs first on a large dataset)
+fn missing_note(expected: &[Q], back: &[Q]) -> String {
+    let ground = |q: &Q| !matches!(q.0[0], SimpleTerm::BlankNode(_)) && !matches!(q.0[2], SimpleTerm::BlankNode(_)) && !matches!(q.1, Some(SimpleTerm::BlankNode(_)));
+    let (e, b): (BTreeSet<String>, BTreeSet<String>) = (expected.iter().filter(|q| ground(q)).map(key_q).collect(), back.iter().filter(|q| ground(q)).map(key_q).collect());
+    let miss: Vec<&String> = e.difference(&b).take(4).collect(); let extra: Vec<&String> = b.difference(&e).take(4).collect();
+    if miss.is_empty() && extra.is_empty() { String::new() } else { format!(" (missing e.g. {miss:?}; unexpected e.g. {extra:?})") }
+}
 /// the property oracle: Some(description) when the round trip fails.  Two readers are applied to the
 /// emitted document: sophia's JsonLdParser (the property as stated) and the reference reader above.
 fn iso(expected: &Vec<Q>, back: &Vec<Q>) -> bool { isomorphic_datasets(expected, back).unwrap_or(false) }
@@ -814,26 +1357,26 @@ fn iso(expected: &Vec<Q>, back: &Vec<Q>) -> bool { isomorphic_datasets(expected,
 fn has_bad_json(quads: &[Q]) -> bool {
     quads.iter().any(|q| expressible(q) && matches!(&q.0[2], SimpleTerm::LiteralDatatype(l, d) if d.as_str() == format!("{RDF}JSON") && read_json(l).is_err()))
 }
-fn oracle(quads: &[Q], o: &Opts, ser: &Result<String, String>, how: Option<&ParseHow>, problems: &mut Vec<String>) -> Option<String> {
+fn oracle(quads: &[Q], o: &Opts, ser: &Result<String, String>, how: Option<&ParseHow>, entry: &Entry, problems: &mut Vec<String>) -> Option<String> {
     let mut expected: Vec<Q> = quads.iter().filter(|q| expressible(q)).cloned().collect();
     if has_bad_json(quads) {
         return match ser { Err(e) if e.contains("invalid JSON literal") => None, Err(e) => Some(format!("SERIALIZER FAILS with an unexpected error on an ill-formed rdf:JSON literal: {e}")), Ok(t) => Some(format!("SERIALIZER ACCEPTS an ill-formed rdf:JSON literal: {}", t.split_whitespace().collect::<Vec<_>>().join(" "))) };
     }
     if o.native { expected = dedup(&expected.iter().map(native_q).collect::<Vec<_>>()); }
     let txt = match ser { Ok(t) => t, Err(e) => return Some(format!("SERIALIZER FAILS: {e}")) };
-    let flat = txt.split_whitespace().collect::<Vec<_>>().join(" ");
-    let reference = read_json(txt).and_then(|j| reference_to_rdf(&j, o.dir, false, o.native));
+    let flat = clip(&txt.split_whitespace().collect::<Vec<_>>().join(" "));
+    let reference = read_json(txt).and_then(|j| reference_to_rdf(&j, o.dir, false, o.native, o.base));
     let ref_back = match &reference {
         Err(e) => return Some(format!("SERIALIZER OUTPUT INVALID (reference reader): {e}; document: {flat}")),
         Ok(back) => dedup(back),
     };
-    if !iso(&expected, &ref_back) { return Some(format!("SERIALIZER LOSES INFORMATION (reference reader): read back {} quads [{}] instead of {}; document: {flat}", ref_back.len(), show_ds(&ref_back), expected.len())); }
-    match parse_back(txt, o, how, problems).map(|b| if o.native { dedup(&b.iter().map(native_q).collect::<Vec<_>>()) } else { dedup(&b) }) {
-        Err(e) => Some(format!("PARSER REJECTS a document the reference reader round-trips: {e}; document: {flat}")),
+    if !iso(&expected, &ref_back) { return Some(format!("SERIALIZER LOSES INFORMATION (reference reader): read back {} quads instead of {}{}: [{}]; document: {flat}", ref_back.len(), expected.len(), missing_note(&expected, &ref_back), clip(&show_ds(&ref_back)))); }
+    match parse_back(txt, o, how, entry, problems).map(|b| if o.native { dedup(&b.iter().map(native_q).collect::<Vec<_>>()) } else { dedup(&b) }) {
+        Err(e) => Some(format!("PARSER REJECTS a document the reference reader round-trips (entry point {}): {e}; document: {flat}", entry.show())),
         Ok(back) if !iso(&expected, &back) => {
-            let quirk = dedup(&read_json(txt).and_then(|j| reference_to_rdf(&j, o.dir, true, o.native)).unwrap_or_default());
+            let quirk = dedup(&read_json(txt).and_then(|j| reference_to_rdf(&j, o.dir, true, o.native, o.base)).unwrap_or_default());
             if o.dir != 0 && iso(&quirk, &back) { Some(format!("PARSER (json-ld-core 0.15.1, rdfDirection={}) DIVERGES from the specification in the known way: parsed back {} quads [{}] instead of {}; document: {flat}", if o.dir == 1 { "i18n-datatype: no '_' before the direction when there is no language" } else { "compound-literal: no rdf:value/rdf:direction/rdf:language triples" }, back.len(), show_ds(&back), expected.len())) }
-            else { Some(format!("PARSER DIVERGES from the reference reader: parsed back {} quads [{}] instead of {}; document: {flat}", back.len(), show_ds(&back), expected.len())) }
+            else { Some(format!("PARSER DIVERGES from the reference reader (entry point {}): parsed back {} quads instead of {}{}: [{}]; document: {flat}", entry.show(), back.len(), expected.len(), missing_note(&expected, &back), clip(&show_ds(&back)))) }
         }
         _ => None,
     }
@@ -1008,7 +1551,7 @@ fn main() {
     let single = a.rest.iter().any(|x| x == "--single");
     let verbose = a.rest.iter().any(|x| x == "--verbose");
     let mut sum = Summary::default();
-    sum.rule = "case = (1..3 datasets given to ONE serializer, each of up to ~30 quads = noise quads + 1..3 shapes among: lists (well-formed, unreferenced head, shared, branching, cyclic through rdf:rest or rdf:first, typed rdf:List, extra property, split across graphs, cell reused as subject/graph name/cell/item elsewhere, copied in two graphs, nested, rdf:nil items), rdf:type with IRI/blank/literal objects, compound-literal shapes, i18n datatypes, rdf:JSON literals (well- and ill-formed), quads JSON-LD cannot express; options = a recipe of 0..17 builder calls among all the with_* methods of JsonLdOptions in random order, which fixes processing mode x use_rdf_type x rdf_direction x indentation x use_native_types; sink = stringifier / Vec / &mut Vec / writer taking 1..5 bytes per call with interruptions / writer failing after a byte budget / jsonifier / failing quad source); non-trivial = the first dataset has an rdf:rest or rdf:direction quad, or at least two graphs; distinct = distinct (datasets, settings)".into();
+    sum.rule = "case = (1..3 datasets given to ONE serializer, each of up to ~30 quads = noise quads + 1..3 shapes among: lists (well-formed, unreferenced head, shared, branching, cyclic through rdf:rest or rdf:first, typed rdf:List, extra property, split across graphs, cell reused as subject/graph name/cell/item elsewhere, copied in two graphs, nested, rdf:nil items), rdf:type with IRI/blank/literal objects, compound-literal shapes, i18n datatypes, rdf:JSON literals (well- and ill-formed), quads JSON-LD cannot express; options = a recipe of 0..17 builder calls among all the with_* methods of JsonLdOptions in random order, which fixes processing mode x use_rdf_type x rdf_direction x indentation x use_native_types; sink = stringifier / Vec / &mut Vec / writer taking 1..5 bytes per call with interruptions / writer failing after a byte budget / jsonifier / failing quad source); the document is read back through a random entry point of the parser (parse_str; parse on a slice, Cursor, BufReader of 8 KiB or small capacity, BufRead handing out 1..7 bytes per fill_buf, BufReader over a slow interrupted Read, Chain of two slices cut inside a character, VecDeque). Directed streams after the witnesses: (1) sizes: 31..257 values for one (subject, predicate) / subjects / predicates / graphs / list items, with lookalike values (same text, different language, datatype or kind) before, after or among the others; (2) a base IRI out of 12 on serializer and parser, compactToRelative default/true/false, the other options at random, IRIs special under the base (remainder of keyword form, empty, query/fragment only, first segment with a colon, dot segments, not normalised) in subject / object / graph name / rdf:type / predicate / list item position; (3) documents of 9..140 KiB of 2-, 3- and 4-byte characters with a character across a chosen multiple of 4096/8192, read back through EVERY entry point, and invalid UTF-8 variants that every entry point must refuse; non-trivial = a directed case, or the first dataset has an rdf:rest or rdf:direction quad, or at least two graphs; distinct = distinct (datasets, settings)".into();
     let base = Rng::new(a.seed);
     let range: Vec<usize> = match a.only { Some(i) => vec![i], None => (0..a.n).collect() };
     let mut by_tag: BTreeMap<String, (u64, u64)> = BTreeMap::new();
@@ -1028,15 +1571,23 @@ fn main() {
           if t.kind() != TermKind::Iri || t.iri().map(|i| i.as_str().to_string()) != Some("http://e/a".to_string()) { bad.push("PARSER TERM: RdfTerm::from(ArcIri) is not that IRI".into()); }
           for b in bad { sum.oracle_failures.push(("parser".into(), b)); } }
         // observations that are outside the property (reported, not counted as violations)
-        let probe = |l: &str, dt: &str| serialise(&[([ex("s"), ex("p"), lit_dt(l, &format!("{XSD}{dt}"))], None)], &Opts { mode10: false, use_rdf_type: false, dir: 0, spaces: 0, native: true }).unwrap_or_default();
+        let probe = |l: &str, dt: &str| serialise(&[([ex("s"), ex("p"), lit_dt(l, &format!("{XSD}{dt}"))], None)], &Opts { mode10: false, use_rdf_type: false, dir: 0, spaces: 0, native: true, base: None, ctr: true }).unwrap_or_default();
         if probe("1e2", "integer").contains("\"@value\":100") { sum.bump("note:use_native_types turns the ill-formed \"1e2\"^^xsd:integer into the number 100"); }
         if probe("1.5", "integer").contains("\"@value\":1.5") { sum.bump("note:use_native_types turns the ill-formed \"1.5\"^^xsd:integer into the number 1.5 (read back as xsd:double)"); }
-        let wide = serialise(&[([ex("s"), ex("p"), ex("o")], None)], &Opts { mode10: false, use_rdf_type: false, dir: 0, spaces: 256, native: false }).unwrap_or_default();
+        // an expand context on the parser that defines the prefix 'ex' captures the IRIs of the scheme 'ex:' (they are written in full, and
+        // JSON-LD reads 'ex:a' as a compact IRI then): such an expand context is not a lossless option setting for such a dataset
+        { let d = vec![([iri("ex:a"), ex("p"), iri("ex:b")], None)];
+          if let Ok(t) = serialise(&d, &Opts { mode10: false, use_rdf_type: false, dir: 0, spaces: 0, native: false, base: None, ctr: true }) {
+              let mut bad = vec![];
+              if let Ok(back) = parse_back(&t, &Opts { mode10: false, use_rdf_type: false, dir: 0, spaces: 0, native: false, base: None, ctr: true }, Some(&ParseHow { recipe: vec![Op::ExpandLoaded], via_default: false, as_bytes: false }), &Entry::Str, &mut bad) {
+                  if !iso(&d, &back) && back.iter().any(|q| q.0[0] == ex("a")) { sum.bump("note:a parser whose expand context defines the prefix 'ex' reads the IRI <ex:a> of the document as <http://e/a> (compact IRI expansion; the serializer writes IRIs in full and knows no context)"); }
+              } } }
+        let wide = serialise(&[([ex("s"), ex("p"), ex("o")], None)], &Opts { mode10: false, use_rdf_type: false, dir: 0, spaces: 256, native: false, base: None, ctr: true }).unwrap_or_default();
         if wide.contains('\n') && !wide.contains("\n ") { sum.bump("note:with_spaces(256) prints line breaks without indentation (u16 truncated to u8)"); }
     }
     for idx in range {
         let mut r = base.fork(idx as u64);
-        let case = witness_case(idx).unwrap_or_else(|| gen_case(&mut r, single));
+        let case = witness_case(idx).or_else(|| directed_case(idx, &mut r)).unwrap_or_else(|| gen_case(&mut r, single));
         let expect = Expect::of(&case.recipe);
         let opts = expect.opts();
         let tags = case.tags.clone();
@@ -1044,17 +1595,27 @@ fn main() {
         let (refs, under) = run_case(&case, &opts, &expect, &mut problems);
         // the property, on every document (the one of the run under test when there is one)
         let how = if r.chance(1, 2) { Some(ParseHow { recipe: case.recipe.clone(), via_default: case.via_default, as_bytes: r.chance(1, 2) }) } else { None };
+        // the entry point of the parser through which the documents are read back
+        let text_of = |i: usize| -> Result<String, String> { match &under[i] { Some(t) => Ok(t.clone()), None => refs[i].clone() } };
+        let entry = gen_entry(&mut r, text_of(0).as_deref().unwrap_or("").as_bytes());
         let mut res: Option<String> = None;
         for (i, d) in case.docs.iter().enumerate() {
-            let ser: Result<String, String> = match &under[i] { Some(t) => Ok(t.clone()), None => refs[i].clone() };
-            if let Some(f) = oracle(d, &opts, &ser, how.as_ref(), &mut problems) { res.get_or_insert(if case.docs.len() > 1 { format!("{f}; dataset {i}: {}", show_ds(d)) } else { f }); }
+            let ser: Result<String, String> = text_of(i);
+            if let Some(f) = oracle(d, &opts, &ser, how.as_ref(), &entry, &mut problems) { res.get_or_insert(if case.docs.len() > 1 { format!("{f}; dataset {i}: {}", clip(&show_ds(d))) } else { f }); }
         }
+        let mut wide: Vec<String> = vec![];
+        if case.kind == Kind::Entries { if let Ok(t) = text_of(0) { let mut dist = vec![]; let (fails, coq) = entries_sweep(&mut r, &t, &opts, &case.docs[0], &mut dist); problems.extend(fails); wide.extend(coq); for k in dist { sum.bump(&k); } } }
+        if case.kind == Kind::Big { if let Ok(t) = text_of(0) { match coq_values(&case.docs[0], &t) { Some(v) => { wide.push(v); sum.bump("sizes:values of the largest (subject, predicate) counted by the model"); } None => sum.bump("sizes:the largest (subject, predicate) is not a node of the document (list cell)") } } }
+        if case.kind != Kind::Random || opts.base.is_some() { let texts: Vec<String> = (0..case.docs.len()).filter_map(|i| text_of(i).ok()).collect(); wide.push(coq_ids(&case.docs, &texts.iter().collect::<Vec<_>>(), &opts)); }
         problems.sort(); problems.dedup();
         sum.evaluations += 1;
         let quads = &case.docs[0];
         let all_ds = case.docs.iter().map(|d| show_ds(d)).collect::<Vec<_>>().join(" ||| ");
         let graphs: BTreeSet<String> = quads.iter().map(|q| q.1.as_ref().map(key_t).unwrap_or_default()).collect();
-        let nontrivial = graphs.len() >= 2 || quads.iter().any(|q| q.0[1] == rdf("rest") || q.0[1] == rdf("direction"));
+        let nontrivial = case.kind != Kind::Random || graphs.len() >= 2 || quads.iter().any(|q| q.0[1] == rdf("rest") || q.0[1] == rdf("direction"));
+        sum.bump(&format!("stream:{}", match case.kind { Kind::Random => "random (and the replayed witnesses)", Kind::Big => "directed: sizes and lookalike values", Kind::Ids => "directed: base IRI / compactToRelative and the IRIs special under them", Kind::Entries => "directed: large non-ASCII documents through every parser entry point" }));
+        sum.bump(&format!("parser entry point of the round trip:{}", entry.kind()));
+        if case.kind == Kind::Big { sum.bump(&format!("sizes:dataset of {} quads", match quads.len() { 0..=40 => "up to 40", 41..=80 => "41..80", 81..=160 => "81..160", 161..=320 => "161..320", _ => "more than 320" })); }
         if nontrivial && seen.insert(format!("{:?}{}", opts, all_ds)) { sum.distinct_nontrivial += 1; }
         for t in &tags { let e = by_tag.entry(t.clone()).or_default(); e.0 += 1; if res.is_some() { e.1 += 1; } }
         sum.bump(&format!("mode:{}", if opts.mode10 { "1.0" } else { "1.1" }));
@@ -1064,7 +1625,7 @@ fn main() {
         sum.bump(&format!("recipe:{} builder calls", match case.recipe.len() { 0 => "0", 1..=5 => "1-5", 6..=10 => "6-10", _ => "11+" }));
         for op in &case.recipe { let s = op.show(); sum.bump(&format!("builder:{}", s.split('(').next().unwrap_or(""))); }
         if how.is_some() { sum.bump("parser built through the recipe"); }
-        let context = format!("shapes {tags:?}; options {} built by {}{}; sink {}; dataset: {all_ds}", opts.show(), if case.via_default { "(from Default::default()) " } else { "" }, show_recipe(&case.recipe), case.sink.name());
+        let context = format!("shapes {tags:?}; options {} built by {}{}; sink {}; dataset: {}", opts.show(), if case.via_default { "(from Default::default()) " } else { "" }, show_recipe(&case.recipe), case.sink.name(), if a.only.is_some() { all_ds.clone() } else { clip(&all_ds) });
         if let Some(d) = &res {
             if verbose { println!("FAIL {idx} {tags:?} [{}] {all_ds} => {d}", opts.show()); }
             sum.bump(&format!("oracle:{}", d.split(':').next().unwrap_or("").split('(').next().unwrap_or("").trim()));
@@ -1095,9 +1656,10 @@ fn main() {
             match (&ref_docs, under_docs.as_ref().unwrap_or(&Ok(String::new())), json_obs.as_ref().unwrap_or(&Ok(String::new()))) {
                 (Ok(rd), Ok(ud), Ok(jo)) => {
                     let obs = if under_docs.is_some() { format!("[{rd}; {ud}]") } else { format!("[{rd}]") };
-                    let rt: String = (0..case.docs.len()).map(|k| format!(" && roundtrip_ok t {copts} (nth {k} ds []) 1000")).collect();
+                    let rt_base = if it.next < 900 { 1000 } else { it.next + 1000 };
+                    let rt: String = (0..case.docs.len()).map(|k| format!(" && roundtrip_ok t {copts} (nth {k} ds []) {rt_base}")).collect();
                     format!("let t := {} in let ds := {} in calls_ok t {copts} {} ds {obs}{}{rt}{}", it.table(), coq_list(cds.iter().cloned()), coq_list(bad.iter().cloned()),
-                        if json_obs.is_some() { format!(" && jsonifier_ok t {copts} {} ds {jo}", coq_list(bad.iter().cloned())) } else { String::new() }, i18n.iter().map(|x| format!(" && {x}")).collect::<String>())
+                        if json_obs.is_some() { format!(" && jsonifier_ok t {copts} {} ds {jo}", coq_list(bad.iter().cloned())) } else { String::new() }, i18n.iter().chain(wide.iter()).map(|x| format!(" && {x}")).collect::<String>())
                 }
                 (Err(e), _, _) | (_, Err(e), _) | (_, _, Err(e)) => format!("false (* no document to compare: {} *)", e.replace("*)", "* )").replace("(*", "( *")),
             }
@@ -1107,7 +1669,7 @@ fn main() {
     }
     for (t, (n, f)) in &by_tag { sum.bump_by(&format!("shape:{t}"), *n); if verbose { println!("{f:5}/{n:5} {t}"); } }
     if a.only.is_none() {
-        sum.shards = write_shards(&a.out, "From Sophia.C12 Require Import Model Calls.\n", &cases, a.shards);
+        sum.shards = write_shards(&a.out, "From Sophia.C12 Require Import Model Calls Wide.\n", &cases, a.shards);
         sum.extra.push(("coq_cases".into(), cases.len().to_string()));
         std::fs::write(format!("{}/summary.json", a.out), sum.to_json()).unwrap();
     }
